@@ -72,4 +72,34 @@ theorem cutBedSections_block_sizes (ips chrom : Nat) : ∀ (fuel : Nat) (items :
       · exact ⟨_, List.length_take_le _ _, rfl⟩
       · exact ih _ s hs
 
+/-- the bigWig twin: every data section holds at most `ips` values -/
+theorem cutSections_block_sizes (ips chrom : Nat) : ∀ (fuel : Nat) (items : List V),
+    ∀ s ∈ cutSections ips chrom fuel items, ∃ blk : List V, blk.length ≤ ips ∧ s = encSection chrom blk := by
+  intro fuel
+  induction fuel with
+  | zero => intro items s hs; simp [cutSections] at hs
+  | succ fuel ih =>
+    intro items s hs
+    cases items with
+    | nil => simp [cutSections] at hs
+    | cons r rs =>
+      simp only [cutSections, List.mem_cons] at hs
+      rcases hs with rfl | hs
+      · exact ⟨_, List.length_take_le _ _, rfl⟩
+      · exact ih _ s hs
+
+/-- **The 16-bit item count of a data section is never exceeded (D22).** The writer models cut at `min items_per_slot 65535`,
+    so whatever `items_per_slot` the caller passes, every bigWig and bigBed data section holds at most 65535 items: its
+    count field `le 2 count` is exact. -/
+theorem data_sections_fit_u16 (ips chrom fuel : Nat) (vs : List V) (es : List BedE) :
+    (∀ s ∈ cutSections (min ips 65535) chrom fuel vs, ∃ blk : List V, blk.length < 65536 ∧ s = encSection chrom blk) ∧
+    (∀ s ∈ cutBedSections (min ips 65535) chrom fuel es, ∃ blk : List BedE, blk.length < 65536 ∧ s = encBedSection chrom blk) := by
+  constructor
+  · intro s hs
+    obtain ⟨blk, h1, h2⟩ := cutSections_block_sizes _ chrom fuel vs s hs
+    exact ⟨blk, by omega, h2⟩
+  · intro s hs
+    obtain ⟨blk, h1, h2⟩ := cutBedSections_block_sizes _ chrom fuel es s hs
+    exact ⟨blk, by omega, h2⟩
+
 end BW
